@@ -29,7 +29,10 @@ def alpha_max(x0, d, lb, ub, user_cap, it):
             a = min(a, (ub[i] - x0[i]) / d[i])
         elif d[i] < 0 and np.isfinite(lb[i]):
             a = min(a, (lb[i] - x0[i]) / d[i])
-    return min(a, user_cap)
+    # "max feasible step" of the property = the largest step that keeps the box.  The user's
+    # max_steplength option is not part of it (and the port documents that it replaces it by
+    # 1.0 in the first iteration), so it is deliberately not folded in here.
+    return a
 
 
 def check(spec, stats=None):
